@@ -357,9 +357,10 @@ def listFormulaIsEmpty : Nat → List Atom → List Atom → SM Bool
         | some (pre, items) => do
           let lt ← getList a.idx
           let newLen := max pre.length lt.pre.length
-          if pre.length < newLen && lt.items.isNever then pure none
+          -- fix D77: the lists accumulated so far continue with their OWN rest type
+          if pre.length < newLen && items.isNever then pure none
           else
-            let pre1 := pre ++ List.replicate (newLen - pre.length) lt.items
+            let pre1 := pre ++ List.replicate (newLen - pre.length) items
             let pre2 ← SM.lift ((pre1.zipIdx).mapM fun (x, i) =>
               if i < lt.pre.length then inter x (lt.pre.getD i never) else some x)
             if lt.pre.length < newLen && lt.items.isNever then pure none
